@@ -35,9 +35,28 @@ def entry_env(prog, fn, head, models=None, args=None, opaque=()):
     env = {0: ("uninit",)}
     for i in range(fn.arg_count):
         env[i + 1] = (args[i] if args else P(fn.local_name(i + 1) or "arg%d" % (i + 1)))
-    tree = ev._run(fn, 0, env, {}, 0, until=frozenset([head]))
+    ev.cut_revisit = frozenset(ev.no_skip)          # the inner loop is looked for within one pass of its enclosing loops
+    tree = ev.run(fn, 0, env, {}, 0, until=frozenset([head]))
     ls = sym._leaves(tree, [])
     joins = [x for x in ls if isinstance(x, tuple) and x and x[0] == "@join"]
+    if not joins and ev.no_skip:
+        # not reached in the first pass of the enclosing loop (it needs state built by earlier iterations): take a generic
+        # iteration of the innermost enclosing loop instead — its loop-carried locals are the atoms L<i>
+        lp = fn.loops()
+        parent = min(ev.no_skip, key=lambda h: len(lp[h]))
+        penvs, _t, _e = entry_env(prog, fn, parent, models, args, opaque)
+        if len(penvs) == 1:
+            asg = assigned_in(fn, lp[parent])
+            env = {i: P("L%d" % i) for i in range(len(fn.locals))}
+            env.update({l: v for l, v in penvs[0].items() if l not in asg})
+            ev.stop = None
+            ev._enter()
+            try:
+                tree = ev._run_from(fn, parent, env, {}, 0, frozenset([head]))
+            finally:
+                ev._leave()
+            ls = sym._leaves(tree, [])
+            joins = [x for x in ls if isinstance(x, tuple) and x and x[0] == "@join"]
     envs = [ev._joins[j[1]][0] for j in joins]
     if len(envs) > 1:
         # several symbolic paths reach the loop: merge them into one environment of case trees; paths that never
@@ -180,6 +199,11 @@ def simplify_under(t, conds):
 
 def summarize(prog, fn, models=None, opaque=()):
     """summary of every natural loop of fn (see module doc). Raises sym.Undecided when a loop cannot be summarised."""
+    with sym.budget():
+        return _summarize(prog, fn, models, opaque)
+
+
+def _summarize(prog, fn, models=None, opaque=()):
     out = []
     for h, body, depth in find_loops(fn):
         envs, tree, ev = entry_env(prog, fn, h, models, opaque=opaque)
@@ -369,6 +393,6 @@ def exit_value(prog, fn, lp, models=None, opaque=()):
     ne = sym.normal_exit(fn, lp["head"], lp["body"])
     if ne is None:
         raise sym.Undecided("loop has no recognisable normal exit")
-    r = ev._run(fn, ne, env, {lp["head"]: 1}, 0)
+    r = ev.run(fn, ne, env, {lp["head"]: 1}, 0)
     lp["exit_effects"] = list(ev.effects)       # opaque calls made between the loop's normal exit and the return
     return r
